@@ -56,11 +56,14 @@ func envPolicies() map[string]PolicyCfg {
 	p = base
 	p.SharedIK = true
 	m["shared-simple"] = p
+	p = base
+	p.RCI = 0 // "check on every use": a cached key is re-validated whenever any time at all has passed since it was loaded
+	m["rci-zero"] = p
 	return m
 }
 
 var envCfgNames = []string{"default", "minute", "nocache", "skonly", "shared-lru2", "sk-lru1", "ik-slru1", "ik-lfu2", "tinylfu",
-	"sesscache2", "sesscache1-exp", "nocache+shared", "shared-simple"}
+	"sesscache2", "sesscache1-exp", "nocache+shared", "shared-simple", "rci-zero"}
 
 type envGen struct {
 	r     *gen.Rand
@@ -118,8 +121,15 @@ func (g *envGen) session(f int, part string) int {
 
 func (g *envGen) advances() []int64 {
 	p := g.pol
-	return []int64{0, 1, secNs - 1, secNs, secNs + 1, p.RCI - 1, p.RCI, p.RCI + 1, 2*p.RCI + 1, p.Precision, p.Precision - 1,
+	all := []int64{0, 1, secNs - 1, secNs, secNs + 1, p.RCI - 1, p.RCI, p.RCI + 1, 2*p.RCI + 1, p.Precision, p.Precision - 1,
 		p.Expire - p.RCI, p.Expire - 1, p.Expire, p.Expire + 1, p.Expire + secNs, p.Expire + p.RCI + 1, p.SessDur + 1, 3 * secNs, 7 * secNs}
+	out := all[:0]
+	for _, d := range all {
+		if d >= 0 {
+			out = append(out, d)
+		}
+	}
+	return out
 }
 
 func (g *envGen) faults(nmax int) [][2]any {
@@ -297,6 +307,12 @@ func genEnvCase(r *gen.Rand, cfgName string, mode string) *EnvCase {
 			if mode == "relfail" && r.Chance(1, 2) {
 				n := r.Intn(5)
 				eop.RelFail = &n
+			}
+			if mode == "slowkms" { // KMS round trips during which the clock crosses second / precision / interval boundaries
+				eop.Faults = nil
+				if r.Chance(2, 3) {
+					eop.SlowKMS = gen.Pick(r, []int64{1, secNs - 1, secNs, g.pol.Precision, g.pol.Precision + 1, 61 * secNs, g.pol.RCI + 1})
+				}
 			}
 			g.do(eop)
 			if fs != nil && r.Chance(2, 3) { // once the faults stop the next operation succeeds
@@ -572,8 +588,12 @@ func runEnv(a *args) error {
 		return gen.WriteJSON(a.out, map[string]any{"cases": out})
 	}
 	mode := a.extra
+	names := envCfgNames
+	if mode == "sesscache" { // C16: only the cells with a session cache (capacity 2; capacity 1 with a 5 s expiry)
+		names = []string{"sesscache2", "sesscache1-exp"}
+	}
 	for i := 0; i < a.n; i++ {
-		cfg := envCfgNames[i%len(envCfgNames)]
+		cfg := names[i%len(names)]
 		cr := r.Fork()
 		cs := genEnvCase(cr, cfg, mode)
 		cs.Tags = append(cs.Tags, fmt.Sprintf("random/%s/%s", cfg, mode))
